@@ -433,9 +433,15 @@ pub fn resolve_call(
     Some(match op {
         Op::Insert { key, val, ts, ttl, bytes: _ } => {
             let kb = k(*key);
-            let cur = view(&kb).map(|g| g.ts);
+            let g = view(&kb);
+            let cur = g.as_ref().map(|g| g.ts);
+            // length 0: rewrite the value the key holds now (a new generation with equal bytes)
+            let value = match (&g, val.len) {
+                (Some(g), 0) => g.value.clone(),
+                _ => r.value(*key % keys.len(), val, store),
+            };
             Call::Insert {
-                value: r.value(*key % keys.len(), val, store),
+                value,
                 ts: resolve_ts(ts, cur, now),
                 ttl: *ttl,
                 with_ttl_api: *ttl > 0,
